@@ -51,6 +51,7 @@ func main() {
 	write("Forwarding.lean", genForwarding())
 	write("ProvisionErr.lean", genProvisionErr())
 	write("UsagePoolSync.lean", genUsagePoolSync())
+	write("Glue.lean", genGlue())
 
 	// typed scan, cached by content hash of the scanned sources
 	h := hashTree(repo)
@@ -1677,6 +1678,154 @@ func genUsagePoolSync() string {
 	}
 	sb.WriteString(strings.Join(prow, ",\n"))
 	sb.WriteString("\n]\n")
+	sb.WriteString(footer)
+	return sb.String()
+}
+
+// ---------------------------------------------------------------- small glue facts (C02, C10, C13, C19)
+
+func genGlue() string {
+	var sb strings.Builder
+	sb.WriteString(header)
+
+	// C19: order of three calls in (*App).Provision (helpers of app.go are followed)
+	{
+		_, f := parseFile("modules/caddyhttp/app.go")
+		fd := findFunc(f, "App", "Provision")
+		var order []string
+		seen := map[string]bool{}
+		walkInlined(fd, funcsOf(f), map[string]string{}, nil, func(ce *ast.CallExpr, _ *ast.FuncDecl, _ map[string]string) bool {
+			if se, ok := ce.Fun.(*ast.SelectorExpr); ok {
+				m := ""
+				switch se.Sel.Name {
+				case "hasTLSClientAuth", "wrapPrimaryRoute", "automaticHTTPSPhase1":
+					m = se.Sel.Name
+				case "Provision":
+					if strings.HasSuffix(exprText(se.X), "TLSConnPolicies") {
+						m = "TLSConnPolicies.Provision"
+					}
+				}
+				if m != "" && !seen[m] {
+					seen[m] = true
+					order = append(order, m)
+				}
+			}
+			return true
+		})
+		sb.WriteString("/-- modules/caddyhttp/app.go (*App).Provision: the order in which it first calls automaticHTTPSPhase1, hasTLSClientAuth\n    (the strict_sni_host default), wrapPrimaryRoute (which compiles the enforcement handler in) and\n    TLSConnPolicies.Provision (which zeroes the raw verifier config Active() looks at); helpers of app.go are followed -/\n")
+		sb.WriteString("def httpProvisionOrder : List String := " + leanStrList(order) + "\n\n")
+	}
+
+	// C13: replaceRemoteAdminServer
+	{
+		_, f := parseFile("admin.go")
+		fd := findFunc(f, "", "replaceRemoteAdminServer")
+		var clientAuth []string
+		var appends []string
+		if fd != nil {
+			var stack []*ast.RangeStmt
+			var walk func(n ast.Node)
+			walk = func(n ast.Node) {
+				ast.Inspect(n, func(x ast.Node) bool {
+					switch t := x.(type) {
+					case *ast.RangeStmt:
+						stack = append(stack, t)
+						walk(t.Body)
+						stack = stack[:len(stack)-1]
+						return false
+					case *ast.AssignStmt:
+						for i, l := range t.Lhs {
+							se, ok := l.(*ast.SelectorExpr)
+							if !ok || i >= len(t.Rhs) {
+								continue
+							}
+							if se.Sel.Name == "ClientAuth" {
+								clientAuth = append(clientAuth, exprText(t.Rhs[i]))
+							}
+							if se.Sel.Name == "publicKeys" {
+								owner := exprText(se.X)
+								from := "?"
+								for j := len(stack) - 1; j >= 0; j-- {
+									if v, ok := stack[j].Value.(*ast.Ident); ok && v.Name == owner {
+										from = exprText(stack[j].X)
+										break
+									}
+								}
+								appends = append(appends, owner+" <- range "+from+" : "+exprText(t.Rhs[i]))
+							}
+						}
+					}
+					return true
+				})
+			}
+			walk(fd.Body)
+		}
+		sb.WriteString("/-- admin.go replaceRemoteAdminServer: every value assigned to a `.ClientAuth` field -/\n")
+		sb.WriteString("def remoteAdminClientAuth : List String := " + leanStrList(clientAuth) + "\n\n")
+		sb.WriteString("/-- … and every assignment to a `.publicKeys` field: `<owner> <- range <what the owner ranges over> : <value>` -/\n")
+		sb.WriteString("def remoteAdminKeyAppends : List String := " + leanStrList(appends) + "\n\n")
+	}
+
+	// C10: placeholder shorthands
+	{
+		_, f := parseFile("caddyconfig/httpcaddyfile/shorthands.go")
+		fd := findFunc(f, "", "placeholderShorthands")
+		var lits []string
+		if fd != nil {
+			ast.Inspect(fd.Body, func(x ast.Node) bool {
+				if cl, ok := x.(*ast.CompositeLit); ok {
+					lits = strLits(cl)
+					return false
+				}
+				return true
+			})
+		}
+		var pairs []string
+		for i := 0; i+1 < len(lits); i += 2 {
+			pairs = append(pairs, "("+leanStr(lits[i])+", "+leanStr(lits[i+1])+")")
+		}
+		sb.WriteString("/-- caddyconfig/httpcaddyfile/shorthands.go placeholderShorthands(): (shorthand, full placeholder) -/\n")
+		sb.WriteString("def placeholderShorthands : List (String × String) := [" + strings.Join(pairs, ", ") + "]\n\n")
+	}
+
+	// C02: how App.Stop asks for a listener's usage
+	{
+		_, f := parseFile("modules/caddyhttp/app.go")
+		fd := findFunc(f, "App", "Stop")
+		var calls []string
+		if fd != nil {
+			var stack []*ast.RangeStmt
+			var walk func(n ast.Node)
+			walk = func(n ast.Node) {
+				ast.Inspect(n, func(x ast.Node) bool {
+					switch t := x.(type) {
+					case *ast.FuncLit:
+						return true
+					case *ast.RangeStmt:
+						stack = append(stack, t)
+						walk(t.Body)
+						stack = stack[:len(stack)-1]
+						return false
+					case *ast.CallExpr:
+						if se, ok := t.Fun.(*ast.SelectorExpr); ok && se.Sel.Name == "ListenerUsage" {
+							var args, over []string
+							for _, a := range t.Args {
+								args = append(args, exprText(a))
+							}
+							for _, r := range stack {
+								over = append(over, exprText(r.Value)+" in "+exprText(r.X))
+							}
+							calls = append(calls, strings.Join(args, ", ")+" | "+strings.Join(over, "; "))
+						}
+					}
+					return true
+				})
+			}
+			walk(fd.Body)
+		}
+		sb.WriteString("/-- modules/caddyhttp/app.go (*App).Stop: every `caddy.ListenerUsage(args)` call: `args | enclosing range loops` -/\n")
+		sb.WriteString("def listenerUsageCalls : List String := " + leanStrList(calls) + "\n")
+	}
 	sb.WriteString(footer)
 	return sb.String()
 }
